@@ -268,7 +268,7 @@ func runCase(c *Case) Obs {
 		o.ErrText = err.Error()
 		return o
 	}
-	dir, _ := ioutil.TempDir("", "c06-")
+	dir, _ := ioutil.TempDir(baseTmp, "c06-")
 	defer os.RemoveAll(dir)
 	sess := filepath.Join(dir, "session.json")
 	if hs := len(c.ID) + int(c.ID[len(c.ID)-1]); hs%4 == 0 {
@@ -576,11 +576,17 @@ func fatal(f string, a ...interface{}) {
 	os.Exit(3)
 }
 
+// the temp directory as the process found it
+var baseTmp = os.TempDir()
+
 func worker(casesPath string, from, to int, outPath string) {
 	// a corrupted dh_prime of 0 makes math/big compute g^b without reduction: bound the damage
 	lim := syscall.Rlimit{Cur: 6 << 30, Max: 6 << 30}
 	_ = syscall.Setrlimit(syscall.RLIMIT_AS, &lim)
 	cs := readCases(casesPath)
+	// session directories stay in the temp directory as found (baseTmp); what the library itself puts into
+	// "the temp directory" lands on another file system
+	vc.ForeignTmp(baseTmp)
 	out, err := os.OpenFile(outPath, os.O_APPEND|os.O_CREATE|os.O_WRONLY, 0644)
 	if err != nil {
 		fatal("%v", err)
@@ -612,6 +618,9 @@ func superviseRange(casesPath string, cs []Case, from, to int, tag string) map[i
 		cmd.Stderr = &stderr
 		cmd.Stdout = &stderr
 		err := cmd.Run()
+		if cmd.Process != nil {
+			vc.RemoveForeignTmp(cmd.Process.Pid)
+		}
 		data, _ := ioutil.ReadFile(outPath)
 		began := -1
 		for _, l := range strings.Split(string(data), "\n") {
